@@ -62,6 +62,154 @@ class Operator(Contract):
 CONTRACTS = [Operator(m) for m in TABLE]
 
 
+import z3
+from pyvc.nparr import sym_array, SArr
+from pyvc import frontend
+
+_OPS = {'+': add, '-': sub, '*': mul}
+
+
+class Pncbo(Contract):
+    """pncbo(op, f1, f2) itself, for files whose dimension t has ARBITRARY length, op in + - *: variables v (plain in both files)
+    and m (masked in both files), a coordinate variable c (in coordkeys) and a variable only in f1:
+      * v[i] = f1.v[i] op f2.v[i] for every element; m likewise with mask = mask1 OR mask2;
+      * c and the variable missing from f2 are copies of f1's; units text '(u1) op (u2)'; other attributes from f1;
+      * dimensions copied, fresh buffers, both inputs unchanged."""
+    prop = 'C06'
+    target = FN + '::pncbo'
+    max_paths = 60
+
+    def __init__(self, op):
+        self.op = op
+        self.name = 'pncbo[%s]' % op
+
+    def inputs(self, ctx, I):
+        n = ctx.fresh('nt')
+        self.n = n
+        mod = frontend.load('core/_variables.py')
+        node, _ = mod.find('PseudoNetCDFVariable')
+        cls = I.classref(mod, node)
+        mnode, _ = mod.find('PseudoNetCDFMaskedVariable')
+        mcls = I.classref(mod, mnode)
+
+        def var(name, masked=False, units='ppb'):
+            a = sym_array(name, (n,), 'f')
+            a.cls = mcls if masked else cls
+            a.attrs.update(dimensions=('t',), _ncattrs=('units', 'long_name'), units=units, long_name='L' + name[:1])
+            if masked:
+                a.mask = sym_array(name + '_mask', (n,), 'b')
+            return a
+        self.v1 = dict(v=var('v1'), m=var('m1', True), c=var('c1'), only1=var('o1'))
+        self.v2 = dict(v=var('v2', units='ppm'), m=var('m2', True, units='ppm'), c=var('c2'))
+        self.pre1 = {k: a.buf.get for k, a in self.v1.items()}
+        self.pre2 = {k: a.buf.get for k, a in self.v2.items()}
+        self.mpre = (self.v1['m'].mask.buf.get, self.v2['m'].mask.buf.get)
+        f1 = pnc_file(I, dimensions={'t': dim_obj(I, 't', n, unlimited=True)}, variables=dict(self.v1), attrs=dict(title='one'))
+        f1.attrs['_operator_exclude_vars'] = ('c',)
+        f2 = pnc_file(I, dimensions={'t': dim_obj(I, 't', n, unlimited=True)}, variables=dict(self.v2), attrs=dict(title='two'))
+        self.f1, self.f2 = f1, f2
+        return dict(op=self.op, ifile1=f1, ifile2=f2)
+
+    def requires(self, inp):
+        return ge(self.n, 1)
+
+    def small(self, inp):
+        return le(self.n, 2)
+
+    def ensures(self, inp, res, I):
+        if not hasattr(res, 'attrs') or 'variables' not in res.attrs:
+            return [('returns-file', False)]
+        vs = res.attrs['variables']
+        out = [('is-a-new-file', res is not self.f1 and res is not self.f2), ('variables', list(vs.keys()) == ['v', 'm', 'c', 'only1']),
+               ('file-attributes-of-the-left-operand', res.attrs.get('title') == 'one'),
+               ('dimension-copied', 't' in res.attrs['dimensions'] and eq(res.attrs['dimensions']['t'].attrs['_len'], self.n))]
+        if list(vs.keys()) != ['v', 'm', 'c', 'only1'] or not all(isinstance(x, SArr) for x in vs.values()):
+            return out + [('variables-are-arrays', False)]
+        i = z3.Int('i')
+        rng = And(ge(i, 0), lt(i, self.n))
+        f = _OPS[self.op]
+        V, M, C, O = vs['v'], vs['m'], vs['c'], vs['only1']
+        m1, m2 = self.mpre[0]((i,)), self.mpre[1]((i,))
+        out += [('shapes', And(*[eq(x.shape[0], self.n) for x in (V, M, C, O)])),
+                ('v[i] = left[i] op right[i]', Implies(rng, eq(V.get(i), f(self.pre1['v']((i,)), self.pre2['v']((i,)))))),
+                ('v has no masked element', V.mask is None or Implies(rng, sym.Not(V.mask.get(i)))),
+                ('m is masked where either operand is', M.mask is not None and Implies(rng, eq(M.mask.get(i), sym.Or(m1, m2)))),
+                ('m[i] = left[i] op right[i] where unmasked', Implies(And(rng, sym.Not(m1), sym.Not(m2)), eq(M.get(i), f(self.pre1['m']((i,)), self.pre2['m']((i,)))))),
+                ('coordinate variable copied from the left operand', Implies(rng, eq(C.get(i), self.pre1['c']((i,))))),
+                ('variable missing on the right copied from the left operand', Implies(rng, eq(O.get(i), self.pre1['only1']((i,))))),
+                ('units text', V.attrs.get('units') == '(ppb) %s (ppm)' % self.op and M.attrs.get('units') == '(ppb) %s (ppm)' % self.op
+                 and C.attrs.get('units') == 'ppb' and O.attrs.get('units') == 'ppb'),
+                ('other attributes from the left operand', V.attrs.get('long_name') == 'Lv' and M.attrs.get('long_name') == 'Lm'),
+                ('fresh-buffers', all(x.buf is not a.buf for x in (V, M, C, O) for a in list(self.v1.values()) + list(self.v2.values()))),
+                ('inputs-unchanged', Implies(rng, And(*[eq(a.buf.get((i,)), self.pre1[k]((i,))) for k, a in self.v1.items()],
+                                                      *[eq(a.buf.get((i,)), self.pre2[k]((i,))) for k, a in self.v2.items()],
+                                                      eq(self.v1['m'].mask.buf.get((i,)), m1), eq(self.v2['m'].mask.buf.get((i,)), m2))))]
+        return out
+
+
+    # -- replay on the real function -----------------------------------------------------------------------------------
+    def concretize(self, model, inp):
+        from pyvc.verify import model_value
+        return dict(op=self.op, n=model_value(model, self.n))
+
+    def concretize_without_model(self, inp):
+        return dict(op=self.op, n=4)
+
+    def replay(self, c):
+        import numpy as np
+        P = import_real()
+        from PseudoNetCDF.core._functions import pncbo
+        out = None
+        for n in (int(c['n']), 4):
+            if not 1 <= n <= 50:
+                continue
+            rng = np.random.default_rng(6)
+
+            def mk(title, with_only):
+                f = P.PseudoNetCDFFile()
+                f.createDimension('t', n).setunlimited(True)
+                f.title = title
+                d = dict(v=rng.random(n) + 1, m=np.ma.masked_array(rng.random(n) + 1, mask=rng.random(n) < 0.4), c=rng.random(n))
+                if with_only:
+                    d['only1'] = rng.random(n)
+                for k_, a in d.items():
+                    f.createVariable(k_, 'd', ('t',), values=a.copy(), units='ppb' if title == 'one' else 'ppm', long_name='L' + k_[:1])
+                f._operator_exclude_vars = ('c',)
+                return f, d
+            f1, d1 = mk('one', True)
+            f2, d2 = mk('two', False)
+            try:
+                g = pncbo(c['op'], f1, f2)
+            except Exception as e:
+                return False, dict(raised=type(e).__name__, message=str(e)[:200], n=n)
+            import operator
+            fn = {'+': operator.add, '-': operator.sub, '*': operator.mul}[c['op']]
+            bad = []
+            if not np.array_equal(np.asarray(g.variables['v'][...]), fn(d1['v'], d2['v'])):
+                bad.append('v')
+            gm = np.ma.asarray(g.variables['m'][...])
+            em = fn(d1['m'], d2['m'])
+            if not np.array_equal(np.ma.getmaskarray(gm), np.ma.getmaskarray(em)) or not np.array_equal(gm.compressed(), em.compressed()):
+                bad.append('m (mask or values)')
+            if not np.array_equal(np.asarray(g.variables['c'][...]), d1['c']) or not np.array_equal(np.asarray(g.variables['only1'][...]), d1['only1']):
+                bad.append('copied variables')
+            if g.variables['v'].units != '(ppb) %s (ppm)' % c['op'] or getattr(g, 'title', None) != 'one':
+                bad.append('attributes')
+            for f, d in ((f1, d1), (f2, d2)):
+                for k_, a in d.items():
+                    x = f.variables[k_][...]
+                    if not np.array_equal(np.ma.getdata(x), np.ma.getdata(a)) or not np.array_equal(np.ma.getmaskarray(x), np.ma.getmaskarray(a)):
+                        bad.append('input %s modified' % k_)
+            r = (not bad, dict(op=c['op'], n=n, failed=bad))
+            if bad:
+                return r
+            out = out or r
+        return out
+
+
+CONTRACTS += [Pncbo(op) for op in ("+", "-", "*")]
+
+
 def bounded(tier, seed):
     from rtc import harness as H
     import numpy as np
@@ -210,10 +358,12 @@ def bounded_replay(p):
 
 META = dict(
     level='other',
-    technique='operator dispatch proved by pyvc (modular, recording contract for pncbo); numpy.ma value semantics by bounded run-time contract',
-    text='Proved: each of the 16 operator methods calls pncbo exactly once with the operator string of the table, receiver left, argument right, and the '
-         "receiver's coordinate-exclusion list, and returns its result. Bounded: element-wise results, masks, eval and all mask() predicate combinations "
-         'against numpy.ma on snapshots.',
-    note='pncbo/eval/mask value semantics are numpy.ma semantics: bounded only.',
-    assumptions=['numpy.ma semantics (oracle)'],
-    explanation='mixed: proof obligations for dispatch + bounded exploration for value semantics')
+    technique='operator dispatch (16 methods) and pncbo itself (+, -, * on plain and masked variables of arbitrary length; eval of the concrete operator text) proved by '
+              'pyvc; the other operators, eval() and mask() value semantics by bounded run-time contract against numpy.ma',
+    text='Proved: each of the 16 operator methods calls pncbo exactly once with the operator string of the table, receiver left, argument right and the '
+         "receiver's coordinate-exclusion list, and returns its result; pncbo for + - * on files of ANY length: every element is left op right, a masked variable is masked "
+         'exactly where either operand is, coordinate variables and variables missing on the right are copies of the left, units text, attributes, fresh buffers, both inputs '
+         'unchanged. Bounded: all 16 operators, division by zero / invalid results, eval and all mask() predicate combinations against numpy.ma on snapshots.',
+    note='numpy element-wise arithmetic, masked_invalid / masked_where (copying) and getmaskarray are trusted models; NaN/inf production (/, **, %) and comparisons are bounded only.',
+    assumptions=['numpy.ma semantics (oracle of the bounded part; masked_where/masked_invalid/getmaskarray models of the proof part)'],
+    explanation='mixed: proof obligations for dispatch and for pncbo(+,-,*) + bounded exploration for the remaining value semantics')
